@@ -941,7 +941,7 @@ func HarnessC12Spec() {
 // next to valid patterns everywhere else; the whole Validate must report an error exactly then,
 // in both continue-on-errors modes.
 func HarnessC03Patterns() {
-	place := verifChoose(10)
+	place := verifChoose(11)
 	pat := func(i int) string {
 		if place == i {
 			return []string{"(", "[a-", "a{2,1}"}[verifChoose(3)]
@@ -968,7 +968,12 @@ func HarnessC03Patterns() {
 	q.Items.Pattern = pat(5)
 	single := spec.QueryParam("r").Typed("string", "")
 	single.Pattern = pat(6)
-	op.Parameters = []spec.Parameter{*spec.BodyParam("b", &bodySch), *q, *single}
+	other := spec.HeaderParam("n").Typed([]string{"integer", "boolean"}[verifChoose(2)], "")
+	other.Pattern = pat(10) // a pattern on a parameter that is not a string is still an expression that must compile
+	if other.Pattern == "^a+$" {
+		other.Pattern = ""
+	}
+	op.Parameters = []spec.Parameter{*spec.BodyParam("b", &bodySch), *q, *single, *other}
 	respSch := schemaOfType("string")
 	respSch.Pattern = pat(7)
 	h := spec.ResponseHeader().Typed("string", "")
@@ -1200,5 +1205,51 @@ func HarnessC10MapOrder() {
 	verifPermMaps(false)
 	verifAssert(!first.valid && !second.valid, "the-broken-rule-is-reported")
 	verifAssert(verifSameSet(first.errs, second.errs), "error-set-independent-of-map-order")
+	verifReach("end")
+}
+
+// HarnessC09TwoOperations: two operations whose responses share a status code (or both have a default
+// response), each response schema carrying a default that is accepted or rejected; no parameters, no
+// headers; the operations are visited in every map order: every rejected default is an error.
+func HarnessC09TwoOperations() {
+	bad1, bad2 := verifBool(), verifBool()
+	val := func(bad bool) interface{} {
+		if bad {
+			return 3.0
+		}
+		return 1.0
+	}
+	mk := func(id string, bad bool, asDefault bool) *spec.Operation {
+		op := &spec.Operation{}
+		op.ID = id
+		sch := spec.Schema{}
+		sch.Properties = map[string]spec.Schema{"p": numSchemaMax(2, val(bad))}
+		resp := spec.Response{}
+		resp.Description = "ok"
+		resp.Schema = &sch
+		op.Responses = &spec.Responses{}
+		if asDefault {
+			op.Responses.Default = &resp
+		} else {
+			op.Responses.StatusCodeResponses = map[int]spec.Response{200: resp}
+		}
+		return op
+	}
+	asDefault := verifBool()
+	var ops map[string]map[string]*spec.Operation
+	if verifBool() {
+		ops = map[string]map[string]*spec.Operation{"GET": {"/a": mk("a", bad1, asDefault), "/b": mk("b", bad2, asDefault)}}
+	} else {
+		ops = map[string]map[string]*spec.Operation{"GET": {"/a": mk("a", bad1, asDefault)}, "POST": {"/a": mk("b", bad2, asDefault)}}
+	}
+	s := newSpecHarnessValidator(&spec.Swagger{}, ops, true, true)
+	verifPermMaps(true)
+	d := &defaultValidator{SpecValidator: s, schemaOptions: s.schemaOptions}
+	gotD := outcomeOfResult(d.Validate())
+	ex := &exampleValidator{SpecValidator: s, schemaOptions: s.schemaOptions}
+	gotE := outcomeOfResult(ex.Validate())
+	verifPermMaps(false)
+	verifAssert(gotD.valid == !(bad1 || bad2), "rejected-default-is-an-error-and-only-then")
+	verifAssert((len(gotE.warns) > 0) == (bad1 || bad2), "rejected-example-is-a-warning-and-only-then")
 	verifReach("end")
 }
